@@ -23,7 +23,7 @@ EXPLANATION = (
     "exhaustion arm. A success carrying a bare exception object, an unguarded second fire, or an exit that forgets "
     "Deferreds each break the property for a concrete schedule (witness in each report)."
 )
-SHARED = [('C09', ['R2'], 'the acknowledged request carries exactly the submitted messages, keys and order')]
+SHARED = [('C09', ['R2'], 'the acknowledged request carries exactly the submitted messages, keys and order'), ('C11', ['R1'], 'a send that expects no reply still completes or fails within the client timeout'), ('C19', ['R2'], 'queue accounting: a queued send is eventually dispatched, so its Deferred fires')]
 ASSUMPTIONS = [
     "Twisted: Deferred.callback(x) with x not a Failure is a success; callback(Failure) behaves as errback",
     "KafkaClient.send_produce_request fires with a list of ProduceResponse (possibly empty/None with acks=0) or fails",
@@ -233,6 +233,17 @@ def run(ctx):
                 "fire of a caller Deferred that may already have fired (cancelled by the submitter) is unguarded",
                 where(f, s["call"]), "AlreadyCalledError in the middle of a delivery loop: remaining Deferreds "
                 "of the batch never fire", facts=["guard=%s canceller=%s" % (guarded, in_canceller)])
+
+    # a loop that fires the Deferreds of a list considers every one of them: no break / return inside it
+    for g in [hsr] + list(hsr.nested.values()) + [sreq, canc]:
+        for lp in [x for x in walk_body_shallow(g.body) if isinstance(x, ast.For) and isinstance(x.target, ast.Name)]:
+            fires_ = [c for c in ast.walk(lp) if isinstance(c, ast.Call) and call_name(c) in ("callback", "errback") and call_recv(c) == lp.target.id]
+            if not fires_:
+                continue
+            leaves = [x for st in lp.body for x in ast.walk(st) if isinstance(x, (ast.Break, ast.Return))]
+            r.check(not leaves, "%s#deliver-loop-total(for %s in %s)" % (g.qname, lp.target.id, norm(lp.iter, 40)),
+                    "the loop that fires the Deferreds of a list can stop at one that has already fired (break/return inside the loop)",
+                    where(g, lp), "cancelling one dispatched send makes later sends of the same batch and partition never get their result")
 
     # ---- R4 early exits deliver to all
     r = ctx.rule("R4", "every return before the per-response loop is dominated by a deliver-to-all call", 2, "B")
